@@ -29,7 +29,7 @@ def canon(log, tmin):
 def run(ctx):
     drv = common.LeanDriver()
     reqs, metas = [], []
-    for k in range(ctx.scale(300, 4000)):
+    for k in range(ctx.scale(1000, 6000)):
         c = allsims.gen_case(ctx.rng, "fast_nonMarkov_SIS", nmax=ctx.scale(7, 8))
         if c["init"]["kind"] not in ("list", "single"):
             c["init"] = dict(kind="list", nodes=[0])
